@@ -203,8 +203,8 @@ func catalogueWays() *idlgen.Program {
 	return &idlgen.Program{Files: []*idlgen.File{a, b}}
 }
 
-// catalogueScope: the replay of defect "foreign-struct-literal-scope" (docs/C06.md): identifiers inside a
-// literal of a struct defined in another file are resolved in that file's scope.
+// catalogueScope: regression item (defect "foreign-struct-literal-scope", fixed by 4cb0c25): identifiers inside
+// a literal of a struct defined in another file belong to the file of the literal.
 func catalogueScope() *idlgen.Program {
 	c := &idlgen.File{Path: "c.thrift", GoNS: "sc.pc"}
 	c.Consts = []*idlgen.ConstDef{cdef("K", tb(idlgen.I32), cI("111", vI(111))), cdef("T", tb(idlgen.Bool), cId("false", vB(false)))}
@@ -217,9 +217,100 @@ func catalogueScope() *idlgen.Program {
 	return &idlgen.Program{Files: []*idlgen.File{a, b, c}}
 }
 
+// catalogueStrings: regression items (defects "string-literal-escaped-quote" / "-raw-newline", fixed by f3f901c)
+// and the other clauses of quoteLiteral.
+func catalogueStrings() *idlgen.Program {
+	a := &idlgen.File{Path: "a.thrift", GoNS: "str.pa"}
+	str := tb(idlgen.String)
+	a.Structs = []*idlgen.Struct{{Kind: 's', Name: "M", Fields: []*idlgen.Field{
+		fld(1, "eol", rD, str, cS(`\r\n`, '"', "\r\n")),
+		fld(2, "q", rO, str, cS(`say \"hi\"`, '\'', `say "hi"`)),
+		fld(3, "nl", rO, str, cS("x\ny", '"', "x\ny")),
+	}}}
+	a.Consts = []*idlgen.ConstDef{
+		cdef("S1", str, cS(`a\"b`, '\'', `a"b`)),           // 'a\"b'
+		cdef("S2", str, cS("a\nb", '"', "a\nb")),            // raw line feed inside the literal
+		cdef("S3", str, cS(`it\'s`, '"', "it's")),            // "it\'s"
+		cdef("S4", str, cS("c\rd", '\'', "c\rd")),           // raw carriage return
+		cdef("S5", str, cS(`q\\"`, '\'', `q\"`)),            // 'q\\"': an escaped backslash, then a bare quote
+		cdef("S6", tb(idlgen.Binary), cS("b\n\\x00", '"', "b\n\x00")),
+		cdef("L1", tl(str), cL(vL(vS(`a"b`), vS("x\ny")), cS(`a\"b`, '\'', `a"b`), cS("x\ny", '"', "x\ny"))),
+	}
+	return &idlgen.Program{Files: []*idlgen.File{a}}
+}
+
+// catalogueFixed: regression items for the shapes the tree did not digest before af2ab0e (typedef'd containers),
+// 029e141 (optional enum member), c3bf0fd (binary constant as map key), 0728d24 (struct literals in containers
+// under value_type_in_container).
+func catalogueFixed() *idlgen.Program {
+	b := &idlgen.File{Path: "b.thrift", GoNS: "fx.pb"}
+	b.Typedefs = []*idlgen.Typedef{{Name: "BL", Type: tl(tb(idlgen.I32))}, {Name: "BM", Type: tm(tb(idlgen.String), tl(tb(idlgen.Double)))}}
+	a := &idlgen.File{Path: "a.thrift", GoNS: "fx.pa", Includes: []int{1}}
+	a.Typedefs = []*idlgen.Typedef{
+		{Name: "L", Type: tl(tb(idlgen.I32))}, {Name: "L2", Type: tn(0, "L")}, {Name: "TS", Type: ts(tb(idlgen.String))},
+		{Name: "MB", Type: tm(tb(idlgen.Binary), tb(idlgen.I32))},
+	}
+	a.Enums = []*idlgen.Enum{{Name: "E", Values: []idlgen.EnumValue{{Name: "A", Value: 0}, {Name: "B", Value: 3, HasValue: true}}}}
+	tE, tS := tn(0, "E"), tn(0, "S")
+	sv := func(e, f, l *values.Value) *values.Value { return vR(e, f, l) }
+	a.Structs = []*idlgen.Struct{
+		{Kind: 's', Name: "S", Fields: []*idlgen.Field{
+			fld(1, "e", rO, tE, nil),
+			fld(2, "f", rO, tE, cId("E.B", vI(3))),
+			fld(3, "l", rD, tn(0, "L"), cL(vL(vI(7)), cI("7", vI(7)))),
+		}},
+		{Kind: 's', Name: "W", Fields: []*idlgen.Field{
+			fld(1, "ls", rD, tl(tS), cL(vL(sv(vI(0), vI(0), vN())), cM(sv(vI(0), vI(0), vN()), cQ("e"), cId("E.A", vI(0))))),
+			fld(2, "ms", rD, tm(tb(idlgen.String), tS), cM(vM(vS("k"), sv(vN(), vI(0), vN())), cQ("k"), cM(sv(vN(), vI(0), vN()), cQ("f"), cId("E.A", vI(0))))),
+		}},
+	}
+	a.Consts = []*idlgen.ConstDef{
+		cdef("CL", tn(0, "L"), cL(vL(vI(1), vI(2)), cI("1", vI(1)), cI("2", vI(2)))),
+		cdef("CL2", tn(0, "L2"), cL(vL(vI(3)), cI("3", vI(3)))),
+		cdef("CLE", tn(0, "L"), cL(vL())),
+		cdef("CBL", tn(1, "BL"), cL(vL(vI(4), vI(5)), cI("4", vI(4)), cI("5", vI(5)))),
+		cdef("CBM", tn(1, "BM"), cM(vM(vS("k"), vL(vD(1), vD(2.5))), cQ("k"), cL(vL(vD(1), vD(2.5)), cI("1", vD(1)), cD("2.5")))),
+		cdef("CTS", tn(0, "TS"), cL(vT(vS("a")), cQ("a"))),
+		cdef("KB", tb(idlgen.Binary), cQ("kb")),
+		cdef("CMB", tn(0, "MB"), cM(vM(vS("kb"), vI(1), vS("lit"), vI(2)), cId("KB", vS("kb")), cI("1", vI(1)), cQ("lit"), cI("2", vI(2)))),
+		cdef("CMB2", tm(tb(idlgen.Binary), tb(idlgen.I32)), cM(vM(vS("kb"), vI(3)), cId("KB", vS("kb")), cI("3", vI(3)))),
+		cdef("CS", tS, cM(sv(vI(3), vI(0), vN()), cQ("e"), cId("E.B", vI(3)))),
+		cdef("CS2", tS, cM(sv(vI(3), vI(0), vN()), cQ("e"), cI("3", vI(3)))),
+	}
+	return &idlgen.Program{Files: []*idlgen.File{a, b}}
+}
+
+// catalogueSamePkg: two go namespaces with the same last component and the same names in both files: a
+// qualified reference must bind the included file's definition, not the local one of the same name.
+func catalogueSamePkg() *idlgen.Program {
+	b := &idlgen.File{Path: "b.thrift", GoNS: "lib.common"}
+	b.Enums = []*idlgen.Enum{{Name: "Color", Values: []idlgen.EnumValue{{Name: "GREEN", Value: 2, HasValue: true}}}}
+	b.Consts = []*idlgen.ConstDef{cdef("LIMIT", tb(idlgen.I32), cI("200", vI(200))), cdef("NAME", tb(idlgen.String), cQ("lib")),
+		cdef("PRIMES", tl(tb(idlgen.I32)), cL(vL(vI(2), vI(3)), cI("2", vI(2)), cI("3", vI(3))))}
+	a := &idlgen.File{Path: "a.thrift", GoNS: "svc.common", Includes: []int{1}}
+	a.Enums = []*idlgen.Enum{{Name: "Color", Values: []idlgen.EnumValue{{Name: "GREEN", Value: 20, HasValue: true}}}}
+	a.Structs = []*idlgen.Struct{{Kind: 's', Name: "Req", Fields: []*idlgen.Field{
+		fld(1, "limit", rD, tb(idlgen.I32), cId("b.LIMIT", vI(200))),
+		fld(2, "name", rO, tb(idlgen.String), cId("b.NAME", vS("lib"))),
+		fld(3, "primes", rO, tl(tb(idlgen.I32)), cId("b.PRIMES", vL(vI(2), vI(3)))),
+	}}}
+	a.Consts = []*idlgen.ConstDef{
+		cdef("LIMIT", tb(idlgen.I32), cI("100", vI(100))), cdef("NAME", tb(idlgen.String), cQ("svc")),
+		cdef("PRIMES", tl(tb(idlgen.I32)), cL(vL(vI(7)), cI("7", vI(7)))),
+		cdef("LIB_LIMIT", tb(idlgen.I32), cId("b.LIMIT", vI(200))), cdef("LIB_NAME", tb(idlgen.String), cId("b.NAME", vS("lib"))),
+		cdef("LIB_GREEN", tn(1, "Color"), cId("b.Color.GREEN", vI(2))), cdef("OWN_GREEN", tn(0, "Color"), cId("Color.GREEN", vI(20))),
+		cdef("LIB_PRIMES", tl(tb(idlgen.I32)), cId("b.PRIMES", vL(vI(2), vI(3)))),
+		cdef("MIX", tl(tb(idlgen.I32)), cL(vL(vI(200), vI(100)), cId("b.LIMIT", vI(200)), cId("LIMIT", vI(100)))),
+	}
+	return &idlgen.Program{Files: []*idlgen.File{a, b}}
+}
+
 func catalogue() []catProgram {
 	return []catProgram{
+		{name: "scope", prog: catalogueScope(), vtic: true},
+		{name: "strings", prog: catalogueStrings(), vtic: true},
+		{name: "fixed", prog: catalogueFixed(), vtic: true},
+		{name: "samepkg", prog: catalogueSamePkg()},
 		{name: "ways", prog: catalogueWays()},
-		{name: "scope", prog: catalogueScope(), vtic: true, defect: "foreign-struct-literal-scope"},
 	}
 }
